@@ -2,7 +2,8 @@
 (* C09 as operators over an observable record r = [scn |-> ..., obs |-> ...].            *)
 (*   scn.force   "none" (pool default) | "false" (user disabled forced termination)       *)
 (*   scn.ops     the history (add:<kind> addfail dup:<wid> attach:<kind> run runp         *)
-(*               restart kill:<wid> stick:<wid> busy:<wid> close terminate exc)           *)
+(*               restart kill:<wid> stick:<wid> close terminate exc; closeint / termint = *)
+(*               close / terminate cut short by an exception in the closing thread)       *)
 (*   obs.steps   one record per executed operation:                                       *)
 (*     op        the operation                                                            *)
 (*     outcome   "ok" | "raised" | "hung"                                                 *)
